@@ -48,6 +48,7 @@ mod c02;
 mod c04;
 mod c05;
 mod c06;
+mod c07;
 mod c08;
 mod c09;
 mod c10;
@@ -133,6 +134,7 @@ fn main() {
     let code = match (id, one) {
       ("C06", Some(idx)) => c06::one(&tier, idx),
       ("C06", None) => c06::shard(&tier, &range),
+      ("C07", Some(idx)) => c07::one(&tier, idx),
       ("C09", Some(idx)) => c09::one(&tier, idx),
       ("C09", None) => c09::shard(&tier, &range),
       _ => 2,
@@ -152,6 +154,8 @@ fn main() {
     ("C05", Some(d)) => c05::replay(&d),
     ("C06", None) => c06::run(&tier),
     ("C06", Some(d)) => c06::replay(&d),
+    ("C07", None) => c07::run(&tier),
+    ("C07", Some(d)) => c07::replay(&d),
     ("C08", None) => c08::run(&tier),
     ("C08", Some(d)) => c08::replay(&d),
     ("C09", None) => c09::run(&tier),
